@@ -118,6 +118,9 @@ def value_edits(c, rng):
                 nv = v.copy()
                 nv.reshape(-1)[j] += 1
                 w("elem+1", nv)
+                tiny = v.astype(np.float64)
+                tiny.reshape(-1)[j] += 2.0 ** -20
+                w("elem+2^-20", tiny)
                 w("append", np.concatenate([v.reshape(-1), v.reshape(-1)[:1]]).astype(v.dtype))
                 w("drop-elem", v.reshape(-1)[:-1].copy())
                 w("reshape(n,1)", v.reshape(-1, 1).copy(), False)
@@ -126,6 +129,7 @@ def value_edits(c, rng):
         else:
             w("+1", v + 1)
             w("+0.5", float(v) + 0.5)
+            w("+2^-20", float(v) + 2.0 ** -20)
             w("->None", None)
             w("->[v]", np.array([v]))
             w("->0" if v != 0 else "->7", 0 if v != 0 else 7)
@@ -783,7 +787,7 @@ if __name__ == "__main__":
              "arrays, optional None field): permuted (list/tuple/generator), re-typed (Cell<->CumulativeCell, int<->float, "
              "numpy scalars, int64<->float64, dict orders, detail number types, 0-d arrays) and round-tripped (JSON, "
              ".trib, .tribc) copies; every proper prefix, suffix, four one-cell extensions; every single-edit variant "
-             "(3-4 dates, 5 value edits per field, rename/drop/add field, 8 metadata attributes) at every position "
+             "(3-4 dates, 6 value edits per field incl. a 2^-20 perturbation, rename/drop/add field, 8 metadata attributes) at every position "
              "(full families) or one position (sampled families); full `==` matrix over the copies, base against every "
              "variant in both directions, variants against each other; `hash`, `<=`, `isdisjoint`, `&`, `-` on every pair; "
              "`in` for base/edited cells; cell-level `==`/`hash`/set/dict; all ordered pairs (and, through the matrix, all "
